@@ -368,6 +368,10 @@ class TransformedParameter(AbstractParameter, Parametric, collections.abc.Callab
             self.x = x
         self._tensor = self.transform(self.x.tensor)
         self.listeners = []
+        # parameters of a parametric transform (e.g. loc of AffineTransform)
+        for value in vars(self.transform).values():
+            if isinstance(value, AbstractParameter):
+                value.add_parameter_listener(self)
 
     def parameters(self) -> list[AbstractParameter]:
         return self.x.parameters()
